@@ -695,46 +695,32 @@ def search_cap(ctx, shim):
                          "expected for n <= 32, unchanged order beyond (the documented cap)")
 
 
-KNOWN = [
-    {"id": "C09-comp-non-starter-pairs", "status": "known", "property": "C09",
-     "signature": {"finding": "comp-non-starter-pairs"},
-     "what": "unicode_norm.rs::COMPOSITION_TABLE composes the four non-starter pairs U+0308 U+0301 -> U+0344, "
-             "U+0F71 U+0F72/0F74/0F80 -> U+0F73/0F75/0F81, which Unicode excludes from composition and HarfBuzz does "
-             "not compose (theorem known_C09_comp_has_excluded_pairs)"},
-    {"id": "C09-hangul-tbase", "status": "known", "property": "C09",
-     "signature": {"finding": "hangul-tbase"},
-     "what": "unicode.rs::compose_hangul accepts T_BASE itself (U+11A7) as a trailing consonant: compose(U+AC00, U+11A7) "
-             "= U+AC00 (HarfBuzz: TBASE < b); not reachable through the default shaper because U+11A7 is not a mark "
-             "(theorem known_C09_hangul_tbase)"},
-]
-
-
 def replay_known(ctx, shim):
-    """the witnesses of the known_C09_* counter-theorems, replayed on the crate"""
-    # proposed known_findings.json entries (that file is shared; they are registered here at run time)
-    ctx.kf = list(ctx.kf) + [k for k in KNOWN if k["id"] not in [x.get("id") for x in ctx.kf]]
+    """regression witnesses of the two repaired defects (known_findings.json: comp-non-starter-pairs,
+    hangul-tbase); a recurrence is reported with the finding's signature"""
     lines = ["norm compose 776 769", "norm compose 3953 3954", "norm compose 3953 3956", "norm compose 3953 3968",
              "norm compose 44032 4519"]
     outs = vlib.run_lines(shim, lines, nproc=1)
-    if outs[:4] == ["836", "3955", "3957", "3969"]:
-        ctx.violation("composition table contains the non-starter pairs excluded from composition",
+    if any(o != "-" for o in outs[:4]):
+        ctx.violation("composition table contains non-starter pairs that Unicode excludes from composition",
                       {"stage": "search", "stream": "known", "finding": "comp-non-starter-pairs", "requests": lines[:4],
                        "observed": outs[:4]})
-    elif any(o != "-" for o in outs[:4]):
-        ctx.violation("composition of non-starter pairs changed but is still partly present",
-                      {"stage": "search", "stream": "known", "requests": lines[:4], "observed": outs[:4]})
-    if outs[4] == "44032":
-        ctx.violation("compose_hangul(LV, T_BASE) = LV",
+    if outs[4] != "-":
+        ctx.violation("compose_hangul(LV, T_BASE) is defined",
                       {"stage": "search", "stream": "known", "finding": "hangul-tbase", "request": lines[4],
                        "observed": outs[4]})
-    # and through the public API: U+0308 U+0301 with a font that has U+0344
+    # and through the public API: U+0308 U+0301 with a font that has U+0344 must stay two glyphs
     g = groups_from_set([0x308, 0x301, 0x344])
-    o = vlib.run_groups(shim, [[f"font k {build_font(g).hex()}", shape_line("k", [0x308, 0x301])]], nproc=1)[0]
-    ctx.cov.setdefault("known_replays", []).append({"request": "shape <U+0308 U+0301> with a font that has U+0344",
-                                                    "observed_glyphs": parse_shape(o[1]),
-                                                    "composed_glyph": glyph_of(g, 0x344)})
+    grp = [f"font k {build_font(g).hex()}", shape_line("k", [0x308, 0x301])]
+    o = vlib.run_groups(shim, [grp], nproc=1)[0]
+    want = [glyph_of(g, 0x308), glyph_of(g, 0x301)]
+    if parse_shape(o[1]) != want:
+        ctx.violation("<U+0308 U+0301> is composed to U+0344 (a composition exclusion)",
+                      {"stage": "search", "stream": "known-shape", "finding": "comp-non-starter-pairs",
+                       "font_line": grp[0], "request": grp[1], "expected_glyphs": want, "observed": o[1]})
     ctx.note_search("known-witnesses", len(lines) + 1, len(lines) + 1,
-                    rule="witnesses of the known_C09_* counter-theorems replayed on the crate")
+                    rule="witnesses of the two repaired defects (non-starter pairs in COMPOSITION_TABLE, "
+                         "compose_hangul with T_BASE) replayed on the crate")
 
 
 def run(ctx):
